@@ -67,6 +67,8 @@ def one(d, r, co, start_bit, wrong=False):
     open(os.path.join(sub, name + ".tla"), "w").write(txt)
     env = dict(os.environ)
     env["JVM_ARGS"] = "-Xmx2g -Djava.io.tmpdir=" + os.path.join(d, "tmp")
+    env["JAVA_TOOL_OPTIONS"] = "-Djava.io.tmpdir=" + os.path.join(d, "tmp")      # SANY (inside Apalache) litters the default tmp dir otherwise
+    env["TMPDIR"] = os.path.join(d, "tmp")
     p = subprocess.run(["timeout", "300", "apalache-mc", "check", "--init=Init", "--next=Next", "--inv=Inv", "--length=0",
                         "--out-dir=" + os.path.join(sub, "out"), name + ".tla"], cwd=sub, env=env, capture_output=True, text=True)
     out = p.stdout + p.stderr
